@@ -897,10 +897,25 @@ Proof.
     split; [exact HI | apply ext_refl].
 Qed.
 
+Lemma inject_step : forall del i order s, Inv s -> Inv (inject del i order s) /\ Ext s (inject del i order s).
+Proof.
+  intros del i order s HI. unfold inject. destruct (del =? 0); [split; [exact HI | apply ext_refl]|].
+  destruct (do_settings_step [i] s HI) as [I1 E1]. destruct (del =? 1); [split; assumption|].
+  destruct (worker_step order never [] _ I1) as [I2 E2]. split; [exact I2 | eapply ext_trans; eauto].
+Qed.
+
+Lemma inject_at_step : forall k stage del i order s,
+  Inv s -> Inv (inject_at k stage del i order s) /\ Ext s (inject_at k stage del i order s).
+Proof.
+  intros k stage del i order s HI. unfold inject_at. destruct (stage =? k); [now apply inject_step|].
+  split; [exact HI | apply ext_refl].
+Qed.
+
 Theorem step_inv : forall s o, Inv s -> Inv (fst (step true s o)) /\ Ext s (fst (step true s o)).
 Proof.
   intros s o HI. assert (R : Inv s /\ Ext s s) by (split; [exact HI | apply ext_refl]).
-  destruct o as [i p d|i p d h rem|i p d h order|i h|n|ids| |order k fail| ]; cbn [step].
+  destruct o as [i p d|i p d h rem|i p d h order|i p d h stage del order|i p d stage del order|i h|n|ids| |order k fail| ];
+    cbn [step].
   - unfold do_put. destruct (tomb i s); [exact R|].
     destruct (create_storage true i p d s) as [s' o] eqn:C. cbn [fst]. eapply create_any_step; eauto.
   - destruct (has_storage i s); [exact R|]. destruct (tomb i s); [exact R|]. destruct (negb rem); [exact R|].
@@ -911,6 +926,28 @@ Proof.
     destruct (fetch_finish true i p d h (worker order never [] (do_settings [i] s))) as [s' o] eqn:C. cbn [fst].
     destruct (fetch_finish_step _ i p d h s' o I2 C) as [I3 E3].
     split; [exact I3 | eapply ext_trans; [exact E1 | eapply ext_trans; eauto]].
+  - unfold fetch_staged. destruct (has_storage i s); [exact R|].
+    destruct (inject_at_step 0 stage del i order s HI) as [I0 E0].
+    set (s0 := inject_at 0 stage del i order s) in *.
+    destruct (tomb i s0); [split; assumption|].
+    assert (H1 : Inv (if mid_stage stage then inject del i order s0 else s0)
+                 /\ Ext s0 (if mid_stage stage then inject del i order s0 else s0)).
+    { destruct (mid_stage stage); [now apply inject_step | split; [exact I0 | apply ext_refl]]. }
+    destruct H1 as [I1 E1]. set (s1 := if mid_stage stage then inject del i order s0 else s0) in *.
+    destruct (fetch_finish true i p d h s1) as [s2 o] eqn:C. cbn [fst].
+    destruct (fetch_finish_step _ i p d h s2 o I1 C) as [I2 E2].
+    destruct (inject_at_step 5 stage del i order s2 I2) as [I3 E3].
+    split; [exact I3 | eapply ext_trans; [exact E0 | eapply ext_trans; [exact E1 | eapply ext_trans; eauto]]].
+  - unfold put_staged.
+    destruct (inject_at_step 0 stage del i order s HI) as [I0 E0].
+    set (s0 := inject_at 0 stage del i order s) in *.
+    destruct (tomb i s0); [split; assumption|].
+    destruct (inject_at_step 1 stage del i order s0 I0) as [I1 E1].
+    set (s1 := inject_at 1 stage del i order s0) in *.
+    destruct (create_storage true i p d s1) as [s2 o] eqn:C. cbn [fst].
+    destruct (create_any_step _ i p d s2 o I1 C) as [I2 E2].
+    destruct (inject_at_step 2 stage del i order s2 I2) as [I3 E3].
+    split; [exact I3 | eapply ext_trans; [exact E0 | eapply ext_trans; [exact E1 | eapply ext_trans; eauto]]].
   - destruct (has_storage i s) eqn:Hs; [|exact R]. cbn [fst]. now apply add_change_step.
   - destruct (nth_error (hist s) n) as [e|] eqn:E; [|exact R]. cbn [fst]. apply stale_step; [exact HI|].
     eapply nth_error_In; eauto.
